@@ -141,3 +141,15 @@ func init() {
 		Exhaustive: func(tier string, ev map[string]int) bool { return false },
 	}
 }
+
+func init() {
+	metaTable["C09"] = propMeta{Level: "exploration", CrashIsViolation: true, Assumptions: append(append([]string{}, commonAssumptions...),
+		"inputs are PRNG samples and structured mutations, not all byte strings; TLS listeners are not driven (the TLS record layer sits below the framing under test)",
+		"'never blocks indefinitely' is decided as: the virtual-time bubble becomes quiescent after each input (or the child is killed by the wall-clock watchdog and reported as hang with a goroutine dump)"),
+		Watchdog: map[string]time.Duration{"quick": 6 * time.Minute, "thorough": 60 * time.Minute},
+		Rule: "server cases: 200 hostile inputs per case (random, every 2-bit prefix x length-field extreme, ChannelData shapes, well-formed messages of every method/class signed or unsigned, signed-then-mutated, malformed-then-signed) delivered as UDP datagrams or as a TCP stream under random segmentation from a party that holds valid credentials, with a liveness probe after every 25 inputs (Binding from attacker and bystander, authenticated Refresh, relay both ways through a bystander's permission and channel, bystander snapshot unchanged, no mutex held); " +
+			"client cases: datagrams handed to Client.HandleInbound in several client states with a blocked-call detector, the documented (handled, error) table as classifier and a follow-up transaction; " +
+			"a crash with pion/turn frames, a busy loop (log-call budget) or a hang is a violation; non-trivial = distinct (transport, input class, length bucket) and (client state, input class) fingerprints",
+		NonTrivial: func(fp string) bool { return true },
+	}
+}
